@@ -7,6 +7,8 @@ import time
 
 VERIF = os.path.dirname(os.path.dirname(os.path.abspath(__file__)))
 KNOWN = os.path.join(VERIF, 'known_findings.txt')
+# runs against a scratch tree (selftest, VF_REPO=...) must never overwrite the evidence of /repo
+OUT = VERIF if os.environ.get('VF_REPO', '/repo') == '/repo' else os.path.join(VERIF, '.cache', 'scratch-out')
 
 
 class CheckerBroken(Exception):
@@ -94,7 +96,7 @@ def load_known():
 def finish(ctx, explanation, trusted_base=None, checker_cmd=None):
     """Print KNOWN-FINDING / VIOLATION lines, write reports and evidence; return exit code."""
     known, _fixed = load_known()
-    rep_dir = os.path.join(VERIF, 'reports', ctx.prop)
+    rep_dir = os.path.join(OUT, 'reports', ctx.prop)
     violations = 0
     known_hit = 0
     for f in ctx.findings:
@@ -144,11 +146,11 @@ def finish(ctx, explanation, trusted_base=None, checker_cmd=None):
         'wall_s': round(wall, 3),
         'violations': violations,
     }
-    os.makedirs(os.path.join(VERIF, 'evidence'), exist_ok=True)
-    tmp = os.path.join(VERIF, 'evidence', '%s.json.tmp' % ctx.prop)
+    os.makedirs(os.path.join(OUT, 'evidence'), exist_ok=True)
+    tmp = os.path.join(OUT, 'evidence', '%s.json.tmp' % ctx.prop)
     with open(tmp, 'w') as out:
         json.dump(ev, out, indent=1, default=str)
-    os.replace(tmp, os.path.join(VERIF, 'evidence', '%s.json' % ctx.prop))
+    os.replace(tmp, os.path.join(OUT, 'evidence', '%s.json' % ctx.prop))
     print('%s tier=%s obligations=%d discharged=%d violations=%d known=%d wall=%.1fs'
           % (ctx.prop, ctx.tier, ctx.obligations, ctx.discharged, violations, known_hit, wall))
     return 1 if violations else 0
